@@ -551,6 +551,14 @@ impl Sys {
                 let r = cm.cas_repo_sync_single(&h(ca), 0, krill)?;
                 Ok(format!("ok:{r}"))
             }
+            // What the API does for "sync with the repository now" (POST /api/v1/cas/{ca}/sync/repo and the bulk
+            // variant): it only SCHEDULES the sync task. In the daemon `cas_repo_sync_single` runs on the one
+            // scheduler thread alone, so the concurrent stream uses this op on its worker threads - running
+            // `reposync` there would put two synchronisations of one CA side by side, which krill never does.
+            ["reposyncreq", ca] => {
+                cm.cas_schedule_repo_sync(h(ca), rt)?;
+                Ok("ok".into())
+            }
             ["pump"] => {
                 self.drain();
                 Ok("ok".into())
